@@ -119,8 +119,15 @@ class ChildrenLoop(LoopSpec):
         else:
             yield "no-scan-for-other-nodes", len(scans) == 0
         if case in ATTACH_KINDS:
-            ok = got is None or (isinstance(got, list) and len(got) == 1 and isinstance(got[0], Seg) and got[0].key[0] == "pending<=line-in-line-order")
+            is_pending = isinstance(got, list) and len(got) == 1 and isinstance(got[0], Seg) and got[0].key[0] == "pending<=line-in-line-order"
+            ok = got is None or is_pending
             yield "receives-exactly-the-pending-comments", ok
+            tested = [b for seg, b in E.ctx.ghost.get("$nonempty", []) if seg.key[0] == "pending<=line-in-line-order"]
+            if not tested:
+                # no emptiness test on this path: then the (possibly empty) pending list itself must have been attached
+                yield "pending-comments-attached", is_pending
+            else:
+                yield "pending-comments-attached-whenever-there-are-any", len(tested) == 1 and S.ite(tested[0], is_pending, got is None or is_pending)
             if got is not None and ok:
                 bound = elem.meta.end_line if case == "projection" else elem.meta.line
                 yield "up-to-its-line(end-line-for-projection)", S.eq(got[0].key[2], bound)
@@ -160,7 +167,9 @@ def _truthy_list_model():
 
     def py_truth(I, v):
         if isinstance(v, list) and len(v) == 1 and isinstance(v[0], Seg) and v[0].key[0] in ("pending<=line-in-line-order", "comments-of-node"):
-            return I.ctx.fresh(S.BOOL, "nonempty")
+            b = I.ctx.fresh(S.BOOL, "nonempty")
+            I.ctx.ghost.setdefault("$nonempty", []).append((v[0], b))      # which segment's emptiness was tested on this path
+            return b
         return orig(I, v)
     models.py_truth = py_truth
 
